@@ -11,24 +11,9 @@
 (* Pure operators first (used by the validators with recorded arguments),  *)
 (* then the state machine that TLC model-checks.                           *)
 (***************************************************************************)
-EXTENDS Integers, Sequences, FiniteSets, TLC, ScpiErrTable
+EXTENDS ScpiErrQueueCore, ScpiErrTable
 
-QueueOverflow == 0 - 350
-NoEntry   == [code |-> 0, has |-> FALSE, text |-> <<>>, id |-> 0]
-Marker    == [code |-> QueueOverflow, has |-> FALSE, text |-> <<>>, id |-> 0]
-Ent(c, stored, t, i) == [code |-> c, has |-> stored, text |-> IF stored THEN t ELSE <<>>, id |-> IF stored THEN i ELSE 0]
-IdsOf(qq) == {qq[i].id : i \in {j \in 1..Len(qq) : qq[j].has}}
-
-(* push: stored = the text was given, the build supports texts and storing it succeeded *)
-PushQ(qq, cap, c, stored, t, i) ==
-  IF Len(qq) < cap THEN [q |-> Append(qq, Ent(c, stored, t, i)), frees |-> {}, overflow |-> FALSE]
-  ELSE [q |-> Append(SubSeq(qq, 1, cap - 1), Marker),
-        frees |-> (IF stored THEN {i} ELSE {}) \cup (IF qq[Len(qq)].has THEN {qq[Len(qq)].id} ELSE {}),
-        overflow |-> TRUE]
-(* pop + consume (the caller releases the text it was handed; SYST:ERR? does exactly that) *)
-PopQ(qq) == IF qq = <<>> THEN [q |-> qq, res |-> NoEntry, frees |-> {}]
-            ELSE [q |-> Tail(qq), res |-> Head(qq), frees |-> IF Head(qq).has THEN {Head(qq).id} ELSE {}]
-ClearQ(qq) == [q |-> <<>>, frees |-> IdsOf(qq)]
+(* entries, PushQ / PopQ / ClearQ and the state machine: ScpiErrQueueCore *)
 
 -----------------------------------------------------------------------------
 (* C18: <code>,"<description>[;<text>]" - content cut to `limit` escaped characters *)
@@ -67,38 +52,4 @@ ResponseLemma(full, limit) ==
   /\ WellQuoted(e) /\ Unesc(e) = c /\ IsPrefixOf(c, full)
   /\ (c # full => EscLen(SubSeq(full, 1, Len(c) + 1)) > limit)        \* cut as late as the limit allows
 
------------------------------------------------------------------------------
-(* State machine for model checking: every history of pushes (with / without text, storing may fail), *)
-(* pops, error queries, clears and counts.                                                           *)
-CONSTANTS Cap, Codes, Texts
-VARIABLES q, live, lastRes, lastFrees, lastOp
-qvars == <<q, live, lastRes, lastFrees, lastOp>>
-
-QInit == q = <<>> /\ live = {} /\ lastRes = NoEntry /\ lastFrees = {} /\ lastOp = "init"
-FreshId == CHOOSE i \in 1..(Cap + 2) : i \notin live
-
-DoPush(c, hasInfo, t, allocOk) ==
-  LET stored == hasInfo /\ allocOk
-      r == PushQ(q, Cap, c, stored, t, FreshId)
-      liveMid == IF stored THEN live \cup {FreshId} ELSE live IN
-  /\ q' = r.q
-  /\ Assert(r.frees \subseteq liveMid, "release of an allocation that is not live (double free)")
-  /\ live' = liveMid \ r.frees /\ lastFrees' = r.frees /\ lastRes' = NoEntry /\ lastOp' = "push"
-DoPop == LET r == PopQ(q) IN
-  /\ q' = r.q /\ Assert(r.frees \subseteq live, "double free") /\ live' = live \ r.frees
-  /\ lastFrees' = r.frees /\ lastRes' = r.res /\ lastOp' = "pop"
-DoClear == LET r == ClearQ(q) IN
-  /\ q' = r.q /\ Assert(r.frees \subseteq live, "double free") /\ live' = live \ r.frees
-  /\ lastFrees' = r.frees /\ lastRes' = NoEntry /\ lastOp' = "clear"
-QNext == \/ \E c \in Codes, t \in Texts, h \in BOOLEAN, a \in BOOLEAN : DoPush(c, h, t, a)
-         \/ DoPop \/ DoClear
-QSpec == QInit /\ [][QNext]_qvars
-
-Bounded     == Len(q) <= Cap
-Ownership   == live = IdsOf(q)                            \* no leak; nothing released is still referenced
-DistinctIds == \A i, j \in 1..Len(q) : (i # j /\ q[i].has /\ q[j].has) => q[i].id # q[j].id
-TextsIntact == \A i \in 1..Len(q) : q[i].has => q[i].text \in Texts
-OverflowMarks == [][(lastOp' = "push" /\ Len(q) = Cap) => (q'[Cap] = Marker /\ SubSeq(q', 1, Cap - 1) = SubSeq(q, 1, Cap - 1))]_qvars
-PopIsOldest == [][lastOp' = "pop" => (IF q = <<>> THEN lastRes' = NoEntry /\ q' = q ELSE lastRes' = Head(q) /\ q' = Tail(q))]_qvars
-ReleasedOnce == [][lastFrees' \cap live' = {} /\ lastFrees' \cap IdsOf(q') = {}]_qvars
 =============================================================================
